@@ -240,6 +240,12 @@ func one(o *kit.Out, r *kit.Rand) {
 			// the function is executing and will not return until released
 			if useStop {
 				done := make(chan struct{})
+				if r.Chance(40) {
+					// an interrupted run: the context given to Start is cancelled first, then Stop is called
+					lg.add("[6]")
+					cancel()
+					o.Count("ending", "cancel, then stop, while the function executes")
+				}
 				go func() { lg.add("[4]"); rn.Stop(); lg.add("[5]"); close(done) }()
 				select {
 				case <-done:
